@@ -649,6 +649,7 @@ fn faults(w: &[u8], full: bool, rng: &mut Rng) -> Vec<(String, Vec<u8>)> {
 }
 
 fn c02(thorough: bool, rng: &mut Rng, out: &mut Out) {
+    same_sum_pairs("C02", out);
     out.rule = "for each seed frame and both encodings: every position x replacement byte (all 256 on the full-substitution seeds, 35 structural+random values otherwise), every single deletion, duplication, adjacent swap of unequal characters and proper prefix; plus frames with a wrong length field or wrong checksum; non-trivial = every fault case (each is a damaged valid frame); distinct = distinct case line".into();
     out.exhaustive_note = "the fault set is enumerated completely per seed frame; seed frames are sampled".into();
     let mut seeds: Vec<(u16, u8, Vec<u8>)> = vec![
@@ -1038,8 +1039,45 @@ pub fn soak(prop: &str, _thorough: bool, out: &mut Out) {
     }
 }
 
+/// Pairs of different messages decoded one right after the other whose frames share length, address, type AND
+/// checksum (the data bytes permuted, or two bytes changed by +1 / -1): a decoder that remembers its last result by
+/// such a key hands back the wrong one.  Each pair in both orders; the case stream is run in order on one thread.
+pub fn same_sum_pairs(prop: &str, out: &mut Out) {
+    let mut pairs: Vec<(Vec<u8>, Vec<u8>)> = vec![];
+    for len in [2usize, 3, 16, 64, 255] {
+        let a: Vec<u8> = (0..len).map(|i| (i * 7 + 1) as u8).collect();
+        let mut b = a.clone();
+        b.swap(0, len - 1);
+        pairs.push((a.clone(), b));
+        let mut c = a.clone();
+        c[0] = c[0].wrapping_add(1);
+        c[1] = c[1].wrapping_sub(1);
+        pairs.push((a.clone(), c));
+        let mut d = a.clone();
+        d.reverse();
+        pairs.push((a, d));
+    }
+    for (x, y) in pairs {
+        for (off, ty) in [(0u16, 0u8), (0x0010, 0), (0x1234, 0x42)] {
+            for (p, q) in [(&x, &y), (&y, &x)] {
+                for d in [p, q, p] {
+                    let w = indep_enc(off, ty, d);
+                    let i = out.case(format!("dec {}", hex_of(&w)), true);
+                    out.stat("dec.same-header-same-sum-neighbours");
+                    let want = format!("ok {:04X} {:02X} {}", off, ty, to_hex(d));
+                    if out.impls[i] != want {
+                        let got = out.impls[i].clone();
+                        out.fail(i, format!("{} a frame decoded right after another with the same header and checksum came back as '{}', expected '{}'", prop, &got[..got.len().min(80)], &want[..want.len().min(80)]));
+                    }
+                }
+            }
+        }
+    }
+}
+
 fn c05(thorough: bool, rng: &mut Rng, out: &mut Out) {
     soak("C05", thorough, out);
+    same_sum_pairs("C05", out);
     out.rule = "every specific message kind x addresses/offsets/counts (boundaries + strides quick, all 65536 for the address-only kinds thorough) x 13 states x 6 operations x data blocks of every length 0..=255; each goes message -> frame -> wire -> frame -> message; non-trivial = every case (all are specific messages); distinct = distinct case line".into();
     out.exhaustive_note = "data lengths 0..=255, all states, all operations enumerated completely; addresses complete only in thorough for address-only kinds".into();
     let mut seen: HashMap<Vec<u8>, String> = HashMap::new();
@@ -1232,6 +1270,35 @@ fn c19(thorough: bool, rng: &mut Rng, out: &mut Out) {
             }
         }
     }
+    vsign::known_header_variants("C19", out);
+    // blocks that keep a type's code AND its geometry bytes but carry extreme values everywhere else (any plausibility
+    // arithmetic over the remaining fields must not overflow): decoded, and digested by a virtual sign
+    for t in TYPES {
+        for fill in [0xFFu8, 0x00, 0x80, 0x7F] {
+            let base = t.to_bytes();
+            let mut b = vec![fill; 16];
+            b[0] = base[0];
+            b[1] = base[1];
+            if base[0] == 4 {
+                for k in 4..9 {
+                    b[k] = base[k];
+                }
+            } else {
+                b[5] = base[5];
+                b[7] = base[7];
+            }
+            let i = out.case(format!("type frombytes {}", to_hex(&b)), true);
+            out.stat("frombytes.known-code-extreme-rest");
+            if out.impls[i] != format!("ok {}", type_idx(t)) {
+                let got = out.impls[i].clone();
+                out.fail(i, format!("C19 a block with the code of {:?} and arbitrary other fields was not decoded as that type: {}", t, got));
+            }
+            let v = out.case(format!("vbus M,0005 RO,0005,0 SD,0000,{} CS,0001 QS,0005", to_hex(&b)), true);
+            if out.impls[v].contains("PANIC") {
+                out.fail(v, format!("C19 a virtual sign panicked digesting a block with the code of {:?} and extreme other fields", t));
+            }
+        }
+    }
     // lengths that are 16 only modulo a power of two, and other long inputs: a length kept in a narrow
     // integer must not make them look like a 16-byte block (each with a supported and an unsupported header)
     for len in [255usize, 256, 257, 271, 272, 273, 528, 4112, 65535, 65536, 65552, 65553] {
@@ -1332,6 +1399,15 @@ fn expect_total(w: u32, h: u32) -> usize {
 fn c07(thorough: bool, rng: &mut Rng, out: &mut Out) {
     c07_huge(out);
     giant_pages("C07", thorough, out);
+    // equality and hashing of pages with more than 4 GiB of pixel data (two zeroed buffers, read once)
+    for (w, h) in if thorough { vec![(65537u32, 524288u32), (65536, 524288)] } else { vec![(65537u32, 524288u32)] } {
+        let i = out.case(format!("bigpageeq {} {}", w, h), true);
+        out.stat("page.over-4GiB-equality");
+        if out.impls[i] != "eq=1 hash-eq=1 after-set-eq=0" {
+            let got = out.impls[i].clone();
+            out.fail(i, format!("C07 two {}x{} pages over the same bytes: '{}' (expected equal, same hash, different after one pixel is set)", w, h, got));
+        }
+    }
     out.rule = "for every size in the box (w 0..=9 x h 0..=33 thorough; 0..=6 x 0..=18 + corners quick), the 11 sign sizes and 3 large sizes: new-page bytes for several ids, one set_pixel per pixel (all pixels for small pages, sampled for large) compared with the stated byte/bit position, and from_bytes at lengths total+-{0,1,15,16}; non-trivial = a case on a page with at least one pixel; distinct = distinct case line".into();
     out.exhaustive_note = "the size box is enumerated completely; ids 0..=255 complete on one size; pixels complete for pages up to 300 pixels".into();
     for id in 0..=255u8 {
